@@ -281,7 +281,7 @@ func c34GenGrammar(seed int64, tier string, emit func(any)) {
 	g := &gGen{rand.New(rand.NewSource(seed ^ 0x34c0de)), safe, unsafe}
 	n := 700
 	if tier == "thorough" {
-		n = 8000
+		n = 6000
 	}
 	for i := 0; i < n; i++ {
 		mk(g.line())
